@@ -249,6 +249,11 @@ def main(ck):
                 w['ref_source'] = eo.PRELUDE + eo.TYPED_PRELUDE_REF + eo.strip_cdef(f[1])
             for mech in sorted(mechs):
                 ck.discrepancy('eval:' + mech, 'mechanism %s in\n%s' % (mech, f[1]), w)
+            if m['got'][:2] == ['exc', 'TypeError'] and m['exp'][0] == 'ok' and 'fstring' in f[2] and \
+                    ('binop-obj' in f[2] or 'stmt-augassign' in f[2]) and _log(m['got']) == _log(m['exp'])[:len(_log(m['got']))]:
+                ck.discrepancy('eval:non-str-operand-concatenated-with-fstring:TypeError',
+                               'object + f-string raises TypeError instead of calling __add__/__radd__ in\n%s' % f[1], w)
+                continue
             same_outcome = m['exp'][:2] == m['got'][:2] or (m['exp'][0] == 'exc' and m['exp'][:2] == m['got'][:2])
             if i is not None or not (mechs and same_outcome):
                 a = le[i] if i is not None and i < len(le) else None
@@ -260,7 +265,11 @@ def main(ck):
         for c in res.crashes:
             f = byname[c['case']['f']]
             main_l = '+'.join(sorted(l for l in f[2] if l.startswith(('stmt-', 'typed-')))[:3])
-            ck.discrepancy('eval:crash:%s' % main_l, 'crash/hang %s in\n%s\n%s' % (c['kind'], f[1], c['stderr'][-400:]),
+            ckey = 'eval:crash:%s' % main_l
+            if 'PyUnicode_Check(op)' in (c['stderr'] or '') and 'fstring' in f[2]:
+                # AddNode assumes `x + f'..'` / `x += f'..'` is a str concatenation whatever x is
+                ckey = 'eval:non-str-operand-concatenated-with-fstring:abort'
+            ck.discrepancy(ckey, 'crash/hang %s in\n%s\n%s' % (c['kind'], f[1], c['stderr'][-400:]),
                            {'ext': '.pyx' if typed else '.py', 'case': c['case'], 'stderr': c['stderr'],
                             'module_source': eo.PRELUDE + (eo.TYPED_PRELUDE if typed else '') + f[1]})
         for ft in res.fatal:
